@@ -785,6 +785,20 @@ def index_agreement(ctx, rule='C08.index-agreement'):
                     if s3['k'] == 'assign' and s3['rv']['k'] == 'bin' and s3['rv']['op'].startswith('Sub'):
                         dec = True
             conv.append((fn, bb, None, 'slot before the missing key (i - 1)' if dec else 'insertion slot (i)'))
+    # every result the index role reports comes out of a binary search: a short cut that answers `(0, false)` for a key "that cannot be here" is right about the flag and
+    # wrong about the position, which seek and range starts use as "the slot just before the key"
+    X = ctx.x(idx)
+    dux = ctx.du(X)
+    import c16
+    for bb in sorted(X.reachable_blocks()):
+        for si, st in enumerate(X.blocks[bb]['stmts']):
+            if st['k'] == 'assign' and st['rv']['k'] == 'agg' and st['rv'].get('ak') == 'tuple' and len(st['rv']['ops']) == 2 and X.locals[st['p']['l']]['ty'] == '(usize, bool)':
+                pos = dux.sym(st['rv']['ops'][0])
+                if not c16._tree_has(pos, lambda x: x[0] in ('phi', '?') or (x[0] == 'call' and last_seg(strip_generics(x[1])).startswith('binary_search'))):
+                    res.append(bad(rule, '%s | position reported without a binary search (%s)' % (idx.qual, c16._fmt(pos)[:40]),
+                                   'the index role answers with the position `%s` at %s, which does not come out of a binary search over the node: callers position cursors and range '
+                                   'starts by it ("the slot just before an absent key"), so a short-cut answer sends them to the wrong entry' % (c16._fmt(pos)[:60], X.loc(bb, si)),
+                                   where=X.loc(bb, si)))
     ctx.stats['binary_searches_under_index'] = nsearch
     f = floor(rule, 'binary searches reachable from the index role', nsearch, 2) or floor(rule, 'handled binary-search misses', len(conv), 1)
     if f:
@@ -1021,6 +1035,40 @@ def iterator_overrides(ctx, rule='C08.iterator-overrides'):
     return res
 
 
+def keys_as_bytes(ctx, rule='C08.keys-as-bytes'):
+    """keys are ordered as byte strings everywhere: on the page (the writer sorts with `Ord for [u8]`), in the overlay and in every search.  A comparator that decodes key
+    bytes into integers (`i64::from_be_bytes` as a fast path for 8-byte keys) orders keys with the top bit set before all others: searches then disagree with the order the
+    entries are stored in"""
+    import re
+    res = []
+    F = ctx.facts
+    roots = [ctx.A.get(q) or F.fn(q) for q in ITER_API]
+    roots = [r for r in roots if r is not None]
+    sr = ctx.A.get('search-role')
+    if sr is not None:
+        roots.append(sr)
+    reach = set()
+    for r in roots:
+        reach |= set(F.reachable_fns([r]))
+    reach |= {f for f in F.fns if f.kind == 'Closure' and (f.owner in reach)}
+    f0 = floor(rule, 'functions reachable from the iterator API and the tree search', len(reach), 10)
+    if f0:
+        return [f0]
+    n = 0
+    for fn in sorted(reach, key=lambda g: g.path):
+        for bb in sorted(fn.reachable_blocks()):
+            t = fn.term(bb)
+            c = callee_of(t) if t['k'] == 'call' else None
+            if c and re.search(r'::from_(be|le|ne)_bytes$', strip_generics(c['path'])):
+                n += 1
+                res.append(bad(rule, '%s | key bytes decoded into an integer' % fn.qual,
+                               '%s calls %s at %s on the way of a key lookup: keys are stored in byte-string order, an integer (signed or little-endian) order disagrees with it for some '
+                               'keys, and seek / range / put then land in the wrong place' % (fn.qual, last_seg(strip_generics(c['path'])), fn.loc(bb)), where=fn.loc(bb)))
+    if not n:
+        res.append(ok(rule, 'no integer decoding of bytes in the %d functions reachable from the iterator API and the tree search' % len(reach), sites=len(reach)))
+    return res
+
+
 def run(ctx, tier):
     results = []
     results += bounds_total(ctx)
@@ -1039,6 +1087,7 @@ def run(ctx, tier):
     results += stack_never_emptied(ctx)
     results += index_agreement(ctx)
     results += key_order(ctx)
+    results += keys_as_bytes(ctx)
     results += iterator_overrides(ctx)
     import c01
     results += c01.carriers(ctx, rule='C08.carriers')
